@@ -51,6 +51,8 @@ struct Script {
     prod_count: u64,
     cur: u64,
     db: Option<(u32, u64)>,
+    /// next height asked by the last leader_state call: batch heights are nh + off - 1
+    nh: u32,
 }
 
 struct Sh {
@@ -169,7 +171,7 @@ impl BlockImporter for Importer {
             Some(l) if l.as_l()[0].as_i() == 3 => l.as_l()[1]
                 .as_l()
                 .iter()
-                .find(|b| b.as_l()[0].as_u32() == h && b.as_l()[1].as_u64() == t)
+                .find(|b| (s.nh + b.as_l()[0].as_u32()).saturating_sub(1) == h && b.as_l()[1].as_u64() == t)
                 .map(|b| b.as_l()[2].as_bool())
                 .unwrap_or(false),
             _ => false,
@@ -197,7 +199,9 @@ struct Recon(Arc<Sh>);
 impl BlockReconciliationReadPort for Recon {
     async fn leader_state(&self, next_height: BlockHeight) -> anyhow::Result<LeaderState> {
         self.0.log.lock().unwrap().push(T::l(vec![T::i(0), T::n(*next_height)]));
-        let s = self.0.s.lock().unwrap();
+        let mut s = self.0.s.lock().unwrap();
+        s.nh = *next_height;
+        let nh = s.nh;
         let l = s.leader.clone().expect("leader script");
         let l = l.as_l();
         match l[0].as_i() {
@@ -208,7 +212,7 @@ impl BlockReconciliationReadPort for Recon {
                 l[1].as_l()
                     .iter()
                     .map(|b| SealedBlock {
-                        entity: block_of(b.as_l()[0].as_u32(), b.as_l()[1].as_u64()),
+                        entity: block_of((nh + b.as_l()[0].as_u32()).saturating_sub(1), b.as_l()[1].as_u64()),
                         consensus: Consensus::PoA(Default::default()),
                     })
                     .collect(),
@@ -370,12 +374,14 @@ fn run_inner(input: &T) -> T {
                 }
                 2 => {
                     sh.s.lock().unwrap().clock = o[1].as_u64();
-                    task.verif_update_last_block_values(&Arc::new(header_of(o[2].as_u32(), o[3].as_u64())));
+                    let lh: u32 = *task.verif_state().0;
+                    task.verif_update_last_block_values(&Arc::new(header_of((lh + o[2].as_u32()).saturating_sub(1), o[3].as_u64())));
                     T::l(vec![])
                 }
                 3 => {
                     let d = o[1].as_l();
-                    sh.s.lock().unwrap().db = if d.is_empty() { None } else { Some((d[0].as_u32(), d[1].as_u64())) };
+                    let lh: u32 = *task.verif_state().0;
+                    sh.s.lock().unwrap().db = if d.is_empty() { None } else { Some(((lh + d[0].as_u32()).saturating_sub(1), d[1].as_u64())) };
                     T::l(vec![])
                 }
                 4 => {
@@ -414,15 +420,14 @@ pub fn gen(rng: &mut Rng, n: u64, tier: &str) -> Vec<T> {
         let big = rng.chance(1, 25);
         let t0: u64 = if big { u64::MAX - rng.below(30) } else { 1000 + rng.below(50) };
         let h0 = rng.below(5) as u32;
-        let mut clock = if big { t0 } else { t0 + rng.below(8) };
+        let mut clock = if big { t0 } else { t0.saturating_add(rng.below(8)) };
         // shadow of the heights / times in play, to generate mostly relevant values
-        let mut top_h = h0;
-        let mut top_t = t0;
+                let mut top_t = t0;
         let len = rng.range(1, max_len);
         let mut ops = vec![];
         for _ in 0..len {
             if !big && rng.chance(2, 3) {
-                clock += rng.below(4);
+                clock = clock.saturating_add(rng.below(4));
             }
             let ck = if rng.chance(1, 15) { clock.saturating_sub(rng.below(20)) } else { clock };
             match rng.below(12) {
@@ -434,57 +439,55 @@ pub fn gen(rng: &mut Rng, n: u64, tier: &str) -> Vec<T> {
                         _ => {
                             let k = rng.below(4);
                             let mut bs = vec![];
-                            let mut h = (top_h + 1).saturating_sub(rng.below(3) as u32);
+                            let mut off = rng.below(3) as u32; // 0 = one below the asked height (stale), 1 = the asked height
+                            if rng.chance(1, 12) {
+                                off += 2;
+                            }
                             let mut t = top_t;
                             for _ in 0..k {
-                                t += rng.below(3);
-                                bs.push(T::l(vec![T::n(h), T::n(t), T::b(!rng.chance(1, 5))]));
-                                h += if rng.chance(1, 10) { 2 } else { 1 };
+                                t = t.saturating_add(rng.below(3));
+                                bs.push(T::l(vec![T::n(off), T::n(t), T::b(!rng.chance(1, 5))]));
+                                off += if rng.chance(1, 12) { 2 } else { 1 };
                             }
                             if k > 0 {
-                                top_h = top_h.max(h - 1);
                                 top_t = top_t.max(t);
                             }
                             T::l(vec![T::i(3), T::l(bs)])
                         }
                     };
-                    top_h += 1;
                     ops.push(T::l(vec![T::i(0), T::n(ck), T::b(!rng.chance(1, 12)), leader, fail_t(rng, 1)]));
                 }
                 5..=6 => {
                     let start = if rng.chance(1, 2) {
-                        T::l(vec![T::n(if rng.chance(1, 4) { top_t.saturating_sub(rng.below(5)) } else { ck + rng.below(5) })])
+                        T::l(vec![T::n(if rng.chance(1, 4) { top_t.saturating_sub(rng.below(5)) } else { ck.saturating_add(rng.below(5)) })])
                     } else {
                         T::l(vec![])
                     };
                     let nb = rng.below(4);
                     let mode = if rng.chance(1, 4) { T::l(vec![T::i(1)]) } else { T::l(vec![T::i(0), T::n(nb)]) };
-                    top_h += nb as u32;
                     ops.push(T::l(vec![T::i(1), T::n(ck), T::b(!rng.chance(1, 12)), start, mode, fail_t(rng, 3)]));
                 }
                 7 => {
-                    let h = (top_h + 2).saturating_sub(rng.below(4) as u32);
+                    let d = rng.below(4) as u32; // height = last_height + d - 1
                     let t = if rng.chance(1, 4) { top_t.saturating_sub(rng.below(5)) } else { ck.saturating_sub(rng.below(3)) };
-                    top_h = top_h.max(h);
                     top_t = top_t.max(t);
-                    ops.push(T::l(vec![T::i(2), T::n(ck), T::n(h), T::n(t)]));
+                    ops.push(T::l(vec![T::i(2), T::n(ck), T::n(d), T::n(t)]));
                 }
                 8..=9 => {
                     // a block reaches the database without the sync task telling the producer
                     if rng.chance(1, 8) {
                         ops.push(T::l(vec![T::i(3), T::l(vec![])]));
                     } else {
-                        let h = (top_h + 2).saturating_sub(rng.below(3) as u32);
-                        let t = if big { t0 } else { ck + rng.below(6) };
-                        top_h = top_h.max(h);
+                        let d = rng.below(4) as u32;
+                        let t = if big { t0 } else { ck.saturating_add(rng.below(6)) };
                         top_t = top_t.max(t);
-                        ops.push(T::l(vec![T::i(3), T::l(vec![T::n(h), T::n(t)])]));
+                        ops.push(T::l(vec![T::i(3), T::l(vec![T::n(d), T::n(t)])]));
                     }
                 }
                 _ => ops.push(T::l(vec![T::i(4), T::n(*rng.pick(&[1u64, 500, 999, 1000, 1001, 2500, 10000]))])),
             }
         }
-        cases.push(T::l(vec![trig, T::l(vec![T::n(h0), T::n(t0)]), T::n(clock.min(t0 + 8).max(t0)), T::l(ops)]));
+        cases.push(T::l(vec![trig, T::l(vec![T::n(h0), T::n(t0)]), T::n(clock.min(t0.saturating_add(8)).max(t0)), T::l(ops)]));
     }
     cases
 }
